@@ -165,3 +165,29 @@ def replay(w):
     except Exception as exc:
         sig, obs = 'operation-raises', {'raised': repr(exc)}
     return {'reproduced': sig is not None, 'signature': sig, 'observed': obs}
+
+
+def validate(witnesses):
+    checked = agree = skipped = 0
+    disagree = []
+    for w in witnesses:
+        nt, out = w.get('notes') or {}, w.get('outputs') or {}
+        op = nt.get('op')
+        if 'members' not in out or op not in ('assign', 'assign_inplace', 'shallow_copy', 'deep_copy', 'statistics', 'optimise'):
+            skipped += 1
+            continue
+        K, P, labels = int(nt['K']), int(nt['P']), [int(x) for x in nt['labels']]
+        st, data = _mk(K, P, labels, False)
+        try:
+            new = _apply(op, st, data, K, P, nt.get('labels_after'))
+        except Exception as exc:
+            disagree.append({'notes': nt, 'raised': repr(exc)})
+            checked += 1
+            continue
+        checked += 1
+        got = [list(c.member_points) for c in new.clusters]
+        if got == [[int(i) for i in m] for m in out['members']]:
+            agree += 1
+        else:
+            disagree.append({'notes': nt, 'real': got, 'engine': out['members']})
+    return {'checked': checked, 'agree': agree, 'skipped': skipped, 'disagree': disagree[:5]}
